@@ -71,7 +71,17 @@ O0 == [rev |-> FALSE, pack |-> "decl", dflt |-> FALSE, mapswap |-> FALSE, split 
 RECURSIVE EncMsg(_, _, _, _)
 RECURSIVE EncField(_, _, _, _)
 EncVal(D, ty, x, o) == IF x.k = "msg" THEN LET b == EncMsg(D, ty.msg, x, o) IN LenPrefix(Len(b)) \o b ELSE ScalarBytes(x)
-WtOfTy(ty) == IF SK(ty) \in {"msg", "map"} THEN WT_LEN ELSE WireOf(SK(ty))
+\* a GROUP field (proto2) is a message-typed field [msg |-> Name, grp |-> TRUE] delimited by start / end group keys
+IsGrp(ty) == Has(ty, "grp")
+WtOfTy(ty) == IF IsGrp(ty) THEN WT_SGROUP ELSE IF SK(ty) \in {"msg", "map"} THEN WT_LEN ELSE WireOf(SK(ty))
+\* key + payload of one occurrence of field f holding x
+EncKV(D, f, x, o) ==
+  IF IsGrp(f.ty) THEN KeyBytes(f.tag, WT_SGROUP) \o EncMsg(D, f.ty.msg, x, o) \o KeyBytes(f.tag, WT_EGROUP)
+  ELSE KeyBytes(f.tag, WtOfTy(f.ty)) \o EncVal(D, f.ty, x, o)
+\* body of a group record as the record parser returns it (everything up to and including the end-group key)
+GrpBody(f, r) == SubSeq(r.bytes, 1, Len(r.bytes) - Len(KeyBytes(f.tag, WT_EGROUP)))
+MsgWt(f) == IF IsGrp(f.ty) THEN WT_SGROUP ELSE WT_LEN
+MsgBody(f, r) == IF IsGrp(f.ty) THEN GrpBody(f, r) ELSE r.bytes
 
 EncField(D, f, x, o) ==
   IF x.k = "rep" THEN
@@ -79,7 +89,7 @@ EncField(D, f, x, o) ==
       IN IF packed /\ Len(x.es) > 0
          THEN LET body == Concat2([i \in 1..Len(x.es) |-> ScalarBytes(x.es[i])]) IN
               KeyBytes(f.tag, WT_LEN) \o LenPrefix(Len(body)) \o body
-         ELSE Concat2([i \in 1..Len(x.es) |-> KeyBytes(f.tag, WtOfTy(f.ty)) \o EncVal(D, f.ty, x.es[i], o)])
+         ELSE Concat2([i \in 1..Len(x.es) |-> EncKV(D, f, x.es[i], o)])
   ELSE IF x.k = "pmap" THEN
       LET kty == [s |-> f.ty.map[1]]
           vty == f.ty.map[2]
@@ -94,8 +104,8 @@ EncField(D, f, x, o) ==
           b == [k |-> "msg", fs |-> SubSeq(x.fs, 2, Len(x.fs))]
           \* the pieces must not carry explicit defaults for each other's fields (a later default would win)
           op == [o EXCEPT !.dflt = FALSE]
-      IN KeyBytes(f.tag, WT_LEN) \o EncVal(D, f.ty, a, op) \o KeyBytes(f.tag, WT_LEN) \o EncVal(D, f.ty, b, op)
-  ELSE KeyBytes(f.tag, WtOfTy(f.ty)) \o EncVal(D, f.ty, x, o)
+      IN EncKV(D, f, a, op) \o EncKV(D, f, b, op)
+  ELSE EncKV(D, f, x, o)
 
 FieldOf(m, tag) == m.fields[CHOOSE i \in 1..Len(m.fields) : m.fields[i].tag = tag]
 ImplicitAbsent(m, x) ==
@@ -162,8 +172,8 @@ MergeRecs(D, name, fs, recs, i) ==
                IN IF f.label = "repeated" THEN
                      LET old == IF cur = 0 THEN <<>> ELSE fs0[cur].x.es IN
                      IF k = "msg" THEN
-                        (IF r.wt # WT_LEN THEN DFail
-                         ELSE LET e == MergeBytes(D, f.ty.msg, <<>>, r.bytes) IN
+                        (IF r.wt # MsgWt(f) THEN DFail
+                         ELSE LET e == MergeBytes(D, f.ty.msg, <<>>, MsgBody(f, r)) IN
                               IF ~e.ok THEN DFail
                               ELSE MergeRecs(D, name, Put(fs0, f.tag, [k |-> "rep", es |-> Append(old, [k |-> "msg", fs |-> e.fs])]), recs, i + 1))
                      ELSE IF IsNumeric(k) /\ r.wt = WT_LEN THEN
@@ -195,9 +205,9 @@ MergeRecs(D, name, fs, recs, i) ==
                                   IN IF ~key.ok \/ ~val.ok THEN DFail
                                      ELSE MergeRecs(D, name, Put(fs0, f.tag, [k |-> "pmap", kvs |-> Append(kept, <<key.x, val.x>>)]), recs, i + 1)
                   ELSE IF k = "msg" THEN
-                     IF r.wt # WT_LEN THEN DFail
+                     IF r.wt # MsgWt(f) THEN DFail
                      ELSE LET old == IF cur = 0 THEN <<>> ELSE fs0[cur].x.fs
-                              e == MergeBytes(D, f.ty.msg, old, r.bytes)
+                              e == MergeBytes(D, f.ty.msg, old, MsgBody(f, r))
                           IN IF ~e.ok THEN DFail ELSE MergeRecs(D, name, Put(fs0, f.tag, [k |-> "msg", fs |-> e.fs]), recs, i + 1)
                   ELSE LET s == ScalarOfRec(k, r) IN
                        IF ~s.ok THEN DFail
